@@ -210,6 +210,17 @@ pub fn stream(run: &mut Run, rng: &mut Rng, n: usize) {
         emit(run, &format!("1e{}", "9".repeat(len)), "long");
         emit(run, &format!("1e-{}", "9".repeat(len)), "long");
     }
+    // observation N3 (audit 3, M2): `dec2flt::parse::parse_scientific` stops accumulating exponent digits once the
+    // accumulated magnitude has reached 0x10000 (`if exponent < 0x10000 { exponent = 10 * exponent + digit }`), so a
+    // mantissa of ≈ 65 000 digits and more meets a capped exponent: `0.` + 65 299 zeros + `1e655360` denotes 1e590060
+    // (nearest REAL: inf) and is read as 1e236. The model (`DecFloat.capDigitsVal`) does the same; texts of ≈ 66 KB.
+    for (zeros, exp) in [(65299usize, "655360"), (65299, "65536"), (65299, "65535"), (65299, "65537"), (65299, "000655369"), (65535, "65536"), (65535, "655360"), (65535, "99999"), (65535, "999990")] {
+        emit(run, &format!("0.{}1e{}", "0".repeat(zeros), exp), "capped-exponent");
+    }
+    for (zeros, exp) in [(65500usize, "655360"), (65500, "65536"), (65500, "65535"), (65859, "655360")] {
+        emit(run, &format!("1{}e-{}", "0".repeat(zeros), exp), "capped-exponent");
+        emit(run, &format!("-1{}.5E-{}", "0".repeat(zeros), exp), "capped-exponent");
+    }
     for i in 0..n {
         match i % 8 {
             0 | 1 => {
